@@ -398,12 +398,13 @@ def b_scalar(P, s, a, b, c, name):
         kk = torch.tensor(k)
     else:
         kk = k
+    # `factor`: the dequantized operand carries an absolute error of eta/2 when it is subnormal, which the float op amplifies
     if name == "mul_scalar":
-        return dict(f=lambda t: t * kk, ops=[i], klass="rescale")
+        return dict(f=lambda t: t * kk, ops=[i], klass="rescale", factor=abs(k))
     if name == "rmul_scalar":
-        return dict(f=lambda t: kk * t, ops=[i], klass="rescale")
+        return dict(f=lambda t: kk * t, ops=[i], klass="rescale", factor=abs(k))
     if name == "div_scalar":
-        return dict(f=lambda t: t / kk, ops=[i], klass="rescale")
+        return dict(f=lambda t: t / kk, ops=[i], klass="rescale", factor=1.0 / abs(k))
     if name == "rdiv_scalar":
         return dict(f=lambda t: kk / t, ops=[i], klass="pass")
 
@@ -706,7 +707,10 @@ def compare_tensor(out, tag, klass, res, ref, info):
     same_inf = torch.isinf(r64) & (d64 == r64)
     if klass in ("rescale", "neg"):
         ulow = max(u, info.get("u_src", u))
-        tol = 4 * ulow * r64.abs() + info.get("cmax", 128.0) * max(eta, info.get("eta_src", eta)) + eta
+        eta_any = max(eta, info.get("eta_src", eta))
+        tol = 4 * ulow * r64.abs() + info.get("cmax", 128.0) * eta_any + (1.0 + info.get("factor", 1.0)) * eta_any
+        # at the edge of the dtype's range one rounding decides between the largest finite value and inf
+        tol = torch.where(r64.abs() * (1 + 4 * ulow) >= gen.FMAX.get(dtype, 1e300), torch.full_like(tol, float("inf")), tol)
         if klass == "neg" and info.get("neg_unrepresentable") is not None:
             tol = tol + info["neg_unrepresentable"]
         bad = ~(both_nan | same_inf | ((d64 - r64).abs() <= tol))
@@ -894,6 +898,7 @@ def run_program(case, mode, out=None):
                 info["cmax2"] = float((mag / (sa * sb)).max()) / max(K, 1) if float(sa * sb) > 0 else 1.0
         if klass in ("rescale", "neg"):
             src = operands[0]
+            info["factor"] = r.get("factor", 1.0)
             if isq(src):
                 info["u_src"] = gen.U.get(src.dtype, 0)
                 info["eta_src"] = gen.ETA.get(src.dtype, 0)
@@ -915,7 +920,13 @@ def run_program(case, mode, out=None):
             if refusal:
                 stats["refusals"] = stats.get("refusals", 0) + 1
             elif mode == "c05":
-                out.fail(f"{tag}/raises:{res.type}", f"float program valid but quantized program raises {res.type}: {res.text}")
+                shared = (name == "copy_" and all(isinstance(o, QBytesTensor) for o in operands)
+                          and operands[0]._data.untyped_storage().data_ptr() == operands[1]._data.untyped_storage().data_ptr())
+                if shared:
+                    # destination and source are logically independent (their float twins do not overlap) but share a payload
+                    out.fail("copy_/operands-sharing-payload/raises", f"float program valid but quantized program raises {res.type}: {res.text}")
+                else:
+                    out.fail(f"{tag}/raises:{res.type}", f"float program valid but quantized program raises {res.type}: {res.text}")
             continue
         if mode == "c05":
             n0 = len(out.failures)
@@ -933,6 +944,13 @@ def run_program(case, mode, out=None):
                     continue
                 tw_changed = isinstance(P.twins[j], torch.Tensor) and not _teq(P.twins[j], tw_before[j])
                 if tw_changed:
+                    if inplace is not None and j != idxs[inplace]:
+                        # a float alias of the destination: the quantized world may legitimately hold an independent
+                        # copy there (results of fallbacks are new tensors). Re-synchronise the twin with what the
+                        # user can observe, so that later frame checks compare like with like.
+                        cur = cut(deq, v)
+                        if isinstance(cur, torch.Tensor):
+                            P.twins[j] = cur.clone()
                     continue
                 now = cut(deq, v)
                 if isinstance(now, Raised) or not isinstance(now, torch.Tensor) or not _teq(now, before[j]):
